@@ -190,6 +190,11 @@ def for_loop_of(site):
             fl = as_for_loop(m)
             if fl is not None:
                 return m, fl[0], fl[2], []
+    # `src.iter().for_each(|x| body)` is the loop `for x in src.iter() { body }`
+    if chain and chain[-1][0] == "Iterator::for_each" and len(chain[-1][1].get("args", [])) == 1:
+        clo = strip(chain[-1][1]["args"][0])
+        if clo.get("k") == "Closure" and len(clo.get("params", [])) == 1:
+            return chain[-1][1], clo["params"][0], clo["body"], [c for c, _ in chain[:-1]]
     for i in range(len(site.parents) - 1, -1, -1):
         p = site.parents[i]
         if p.get("k") == "Call" and p.get("callee", "").endswith("IntoIterator::into_iter") and strip_eq(p["args"][0], top):
